@@ -158,7 +158,7 @@ func checkB1(c *Ctx, pr *prioRoles) {
 	// no other increment of actual anywhere in the package
 	sendReach := p.Reach(fn)
 	for _, g := range p.Funcs() {
-		if rel, _ := p.Rel(g); rel != "priority" {
+		if rel, _ := p.Rel(g); rel != "priority" || !p.Live()[g] {
 			continue
 		}
 		for _, b := range g.Blocks {
@@ -170,9 +170,11 @@ func checkB1(c *Ctx, pr *prioRoles) {
 				if w.Kind == "delta" && w.Delta == 1 {
 					// the incrementing helper must be called only from the sending function
 					okCallers := sendReach[g]
-					for _, cs := range p.CallSites(g) {
-						if !sendReach[cs.Parent()] {
-							okCallers = false
+					if g != fn {
+						for _, cs := range p.CallSites(g) {
+							if !sendReach[cs.Parent()] {
+								okCallers = false
+							}
 						}
 					}
 					c.R.Check(okCallers, "B1", p.FnKey(g)+"#actual+1", p.InstrPos(in), "actual is incremented only as part of a successful send", "actual is incremented outside the sending function")
@@ -237,7 +239,7 @@ func checkB3(c *Ctx, pr *prioRoles) {
 	ai := p.alias()
 	n := 0
 	for _, fn := range p.Funcs() {
-		if rel, _ := p.Rel(fn); rel != "priority" {
+		if rel, _ := p.Rel(fn); rel != "priority" || !p.Live()[fn] {
 			continue
 		}
 		for _, w := range ai.contentWritesIn(fn) {
@@ -563,7 +565,7 @@ func checkB9(c *Ctx, pr *prioRoles) {
 	idx := paramIndex(dec, keyPar)
 	// every -1 on actual is in that helper
 	for _, g := range p.Funcs() {
-		if rel, _ := p.Rel(g); rel != "priority" || g == dec {
+		if rel, _ := p.Rel(g); rel != "priority" || g == dec || !p.Live()[g] {
 			continue
 		}
 		for _, b := range g.Blocks {
